@@ -1224,10 +1224,13 @@ func c33LargeSchedules(v c33LargeVariant, thorough, short bool) [][]c33Fault {
 	}
 	calls, cycles, keeps := 4, 1, []int(nil)
 	if thorough {
-		calls, cycles, keeps = 8, 3, []int{1, 500, 999, 1000, 1001, 2000}
+		calls, cycles, keeps = 6, 2, []int{1, 1000, 1001, 2000}
 	}
-	if v.Kind != "persistent" && !thorough {
+	if v.Kind != "persistent" {
 		calls = 3
+		if thorough {
+			calls, keeps = 4, []int{1, 1000}
+		}
 	}
 	for _, f := range c33UniverseX(cycles, calls, keeps) {
 		out = append(out, []c33Fault{f})
@@ -1361,7 +1364,7 @@ func c33RandLarge(rng *rand.Rand, caps c33Caps) c33Case {
 
 // ---------------------------------------------------------------- main
 
-const c33Rule = "real Processor.Run in a testing/synctest bubble (virtual polling/lease tickers) over in-package fakes; fault schedule = finite list of (cycle, component, n) transient failures of lister, lease claim/renew, checkpoint load/commit (lost, or persisted with the reply lost), decoder, LFS blob fetch and sink. Monitor A (store with a checkpoint = persistent fake honouring the etcd store's contract: -1 when never committed): at every persisted CommitOffset(o) of partition p every record of a listed segment of p with offset <= o (and above a checkpoint that existed before the run) has been written successfully to the sink. Monitor B (both that store and the module's own default store): once N=max(5,segments+2) fault-free polling cycles have passed after the last fired fault / last segment appearance with the lease held throughout, every record of every listed segment of the leased partition, offset 0 included, is in the sink with that record's own unique value. non-trivial = at least one successful sink write and one commit were observed and, if the schedule has faults, at least one fired"
+const c33Rule = "real Processor.Run in a testing/synctest bubble (virtual polling/lease tickers) over in-package fakes; fault schedule = finite list of (cycle, component, n) transient failures of lister, lease claim/renew, checkpoint load/commit (lost, or persisted with the reply lost), decoder, LFS blob fetch and sink. A sink Write call either accepts all its records, or fails having accepted none (addressed by the segment its batch starts in, or by its position k=0,1,2.. among the Write calls of the polling cycle, whatever it carries), or fails after accepting a proper prefix of its records; only accepted records count as written. Workload: small layouts (<=4 segments of 0-3 records) and large layouts (2-4 completed segments of one partition listed in the same polling cycle, at least one of them with 999..5000 records: 999/1000/1001, 2000/2001, 2500, 3000, 4096/4097, 5000 and PRNG sizes 1..5000; with/without a pre-existing checkpoint inside the large segment, gaps, other partitions, LFS envelopes every n-th record for Iceberg), each with no fault, with sink failures on the k-th Write call of cycle 1-2 (alone, repeated on the retry in the next cycle, or next to a failing commit) and with PRNG mixes of all fault kinds. Monitor A (store with a checkpoint = persistent fake honouring the etcd store's contract: -1 when never committed): at every persisted CommitOffset(o) of partition p every record of a listed segment of p with offset <= o (and above a checkpoint that existed before the run) has been accepted by the sink. Monitor B (both that store and the module's own default store): once N=max(5,segments+2) fault-free polling cycles have passed after the last fired fault / last segment appearance with the lease held throughout, every record of every listed segment of the leased partition, offset 0 included, is in the sink with that record's own unique value. non-trivial = at least one successful sink write and one commit were observed and, if the schedule has faults, at least one fired"
 
 var c33Assumptions = []string{
 	"segments are listed in (topic, partition, base offset) order like the real S3 listers; record values are unique per (case, record)",
@@ -1369,6 +1372,9 @@ var c33Assumptions = []string{
 	"bounded progress is judged N fault-free polling cycles (virtual time) after the last fault; nothing is claimed beyond that bound",
 	"LFS: only transient blob-fetch failures are injected (modes resolve/hybrid); permanent failures (checksum mismatch, undecodable envelope) and mode=skip drop records by design and are not generated",
 	"store faults (claim/renew/load/commit) are injected into the persistent fake only; the modules' default store never fails",
+	"a sink Write that returns an error has accepted either nothing or a proper prefix of the batch in batch order (never a later record without the earlier ones); the processor is not told how many records were accepted; a Write that returns nil accepted the whole batch",
+	"the decoder fake returns a fresh record slice per call whose values share one fresh allocation; the k-th-Write-call faults make no assumption about what a processor puts into its k-th call (one segment, a slice of a segment, several segments)",
+	"speed only: the test binary re-executes itself once with GORACE clear_shadow_mmap_threshold raised (race runtime clears the shadow of large slices by memset instead of re-mapping it); section_wall_ms in the notes is a wall-clock budget diagnostic that no monitor reads",
 }
 
 type c33Totals struct {
